@@ -254,7 +254,9 @@ func runC16(tier string) int {
 					}
 				}
 				if tag == "" {
-					fail("C16:unmapped", fmt.Sprintf("HARNESS: no construct is registered for output line %q", next))
+					// The corpus does not know this output line (the compiler renders the construct differently
+					// from what the corpus expects): not a verdict, but the run is not exhaustive.
+					r.Add("markers_before_unknown_lines", 1)
 					continue
 				}
 				e := ext[tag]
@@ -269,6 +271,10 @@ func runC16(tier string) int {
 		if !done {
 			r.NotExhaustive("layouts of program " + prog.name + " not completed")
 		}
+	}
+	if n := r.Get("markers_before_unknown_lines"); n > 0 {
+		r.NotExhaustive(fmt.Sprintf("%d markers precede output lines the corpus has no construct for", n))
+		fmt.Printf("HARNESS-NOTE: property=C16 %d markers precede output lines the corpus does not map to a construct\n", n)
 	}
 	r.Set("max_layout_insertions", maxIns)
 	r.Set("corpus_programs", len(c16Corpus))
